@@ -1,7 +1,7 @@
 (* Correspondence harness for SDVRP (C01-C06): the model at float32 rounding ([f32]) against recorded traces, and the
    exact specification (Spec/SplitDelivery) evaluated on the implementation's own episodes. *)
 From Coq Require Import ZArith List Bool Lia Arith.
-From RL4CO Require Import Base.Num Base.EnvSig Spec.Routes Spec.SplitDelivery Env.CVRP Env.CVRPProofs Env.SDVRP Env.SDVRPProofs Harness.HEnv.
+From RL4CO Require Import Base.Num Base.EnvSig Spec.Routes Spec.SplitDelivery Env.CVRP Env.CVRPProofs Env.SDVRP Env.SDVRPProofs Harness.HEnv Harness.HBook.
 Import ListNotations.
 Open Scope Z_scope.
 
@@ -64,3 +64,12 @@ Definition verdict_code (i : cvrp_inst) (slack : Z) (acts : list nat) (verdict :
 Definition check_C06 (c : sd_case) : Z := verdict_code (c_inst c) (c_slack c) (trace_actions (c_trace c)) (c_checker c).
 Definition check_C06_sol (c : (cvrp_inst * Z) * list nat * bool) : Z :=
   match c with ((i, s), acts, verdict) => verdict_code i s acts verdict end.
+
+(* ---------------------------------------------------------------- bookkeeping (C02 / C04, see Harness/HBook.v)
+   keys of the env's step output compared after every step, in this order:
+   current_node (= the action just taken), used_capacity, demand_with_depot (n + 1 entries) *)
+Definition book_obs (s : sd_st) : list Z := Z.of_nat (scur s) :: sused s :: sdwd s.
+Definition book_kinds : list nat := [2; 0]%nat.      (* the remaining entries have no model-free meaning *)
+Definition sd_book := ((cvrp_inst * Z) * list Z * list Z * list (nat * list Z))%type.
+Definition check_book (c : sd_book) : Z :=
+  match c with (i, tols, o0, tr) => book_check (SDVRP f32) (fst i) book_obs book_kinds tols o0 tr end.
